@@ -54,6 +54,9 @@ pub struct DiagObs {
     pub code: usize,
     pub labels: Vec<(usize, usize)>,
     pub notes: Vec<String>,
+    /// for syntax errors (E203): the unexpected token named by the primary label — part of the identity
+    /// of a finding, so that a wrong span of ANOTHER token is not taken for the known one
+    pub tag: String,
 }
 
 #[derive(Clone, Debug, PartialEq, Eq)]
@@ -110,6 +113,22 @@ pub fn observe(src: &str) -> Obs {
             code: d.code,
             labels: d.labels.iter().map(|l| (l.span.start(), l.span.end())).collect(),
             notes: d.notes.iter().map(ToString::to_string).collect(),
+            tag: if d.code == 203 {
+                match d.labels.first() {
+                    // the marker token closing a query path has its own wording
+                    Some(l) if l.message.contains("end of query path") => "RQuery".to_string(),
+                    Some(l) => l
+                        .message
+                        .split('"')
+                        .nth(1)
+                        .filter(|t| !t.is_empty() && t.chars().all(|c| c.is_ascii_alphanumeric() || c == '_'))
+                        .unwrap_or("")
+                        .to_string(),
+                    None => String::new(),
+                }
+            } else {
+                String::new()
+            },
         })
         .collect();
     Obs {
@@ -143,7 +162,8 @@ pub fn classify(src: &str, o: &Obs) -> Option<String> {
             } else {
                 continue;
             };
-            return Some(format!("span:E{}:{clause}", d.code));
+            let tag = if d.tag.is_empty() { String::new() } else { format!(":{}", d.tag) };
+            return Some(format!("span:E{}:{clause}{tag}", d.code));
         }
     }
     None
@@ -178,7 +198,8 @@ fn show_diags(o: &Obs) -> String {
         .iter()
         .map(|d| {
             let ls: Vec<String> = d.labels.iter().map(|(s, e)| format!("{s}-{e}")).collect();
-            format!("{}{}:{}", d.sev, d.code, ls.join(","))
+            let tag = if d.tag.is_empty() { String::new() } else { format!("/{}", d.tag) };
+            format!("{}{}{tag}:{}", d.sev, d.code, ls.join(","))
         })
         .collect::<Vec<_>>()
         .join(";")
